@@ -7,6 +7,7 @@
 //	R4 select          -> switch simrt.Select(hasDefault, cases...)
 //	R5 range over map  -> range simrt.MapKeys(m)
 //	R6 time.Sleep      -> simrt.Sleep
+//	R7 make(chan T, N) -> make(chan T, simrt.ChanCap(N)) for literal N >= 16
 //
 // The rules are syntactic / type directed and know nothing about sipproxy.
 package main
@@ -228,6 +229,21 @@ func (rw *rewriter) expr(e ast.Expr) ast.Expr {
 				rw.needRT = true
 				rep.Rules["R6-sleep"]++
 				n.Fun = rt("Sleep")
+			}
+			// R7: make(chan T, N) with a literal N >= 16 -> make(chan T, simrt.ChanCap(N)): a world may scale the
+			// program's queue capacities down, so that "queue full" paths run with tens of messages, not tens of thousands
+			if id, ok := n.Fun.(*ast.Ident); ok && id.Name == "make" && len(n.Args) == 2 {
+				if _, isChan := n.Args[0].(*ast.ChanType); isChan {
+					if lit, ok := n.Args[1].(*ast.BasicLit); ok && lit.Kind == token.INT {
+						if v, err := strconv.Atoi(lit.Value); err == nil && v >= 16 {
+							if _, isBuiltin := rw.info.Uses[id].(*types.Builtin); isBuiltin {
+								rw.needRT = true
+								rep.Rules["R7-chancap"]++
+								n.Args[1] = call(rt("ChanCap"), lit)
+							}
+						}
+					}
+				}
 			}
 		}
 		return true
